@@ -177,8 +177,113 @@ def ce_engine(env):
     return res
 CHECKS['C08']['extra'] = [ce_engine]
 
+# ----------------------------------------------------------------------------- engine E3: libFuzzer
+import glob, shutil, time
+FUZZ_FLAGS = ['-fsanitize=fuzzer-no-link,address', '-O1', '-g0', '-fno-omit-frame-pointer']
+def _sha(paths, extra=''):
+    h = hashlib.sha256(extra.encode())
+    for p in sorted(paths): h.update(p.encode()); h.update(open(p, 'rb').read())
+    return h.hexdigest()[:16]
+def build_fuzz_harness(root, build, jobs, log):
+    srcs = [s for s in sorted(glob.glob(os.path.join(root, 'harness', '*.cc'))) if not s.endswith('/main.cc')] + [os.path.join(root, 'fuzz', 'fuzz_main.cc')]
+    deps = srcs + glob.glob(os.path.join(root, 'harness', '*.hpp')) + [os.path.join(root, 'cut', 'entries.def'), os.path.join(root, 'cut', 'cut_api.h')]
+    out = os.path.join(build, 'fuzzh-' + _sha(deps, 'fuzzh-v1'))
+    if os.path.exists(os.path.join(out, '.done')): return out
+    os.makedirs(out, exist_ok=True); t0 = time.time()
+    def cc(src):
+        obj = os.path.join(out, os.path.basename(src)[:-3] + '.o')
+        r = subprocess.run(['clang++', '-std=gnu++17'] + FUZZ_FLAGS + ['-c', src, '-o', obj], stdout=subprocess.PIPE, stderr=subprocess.STDOUT, text=True)
+        if r.returncode: raise SystemExit('fuzz harness build failed: %s\n%s' % (src, r.stdout[-3000:]))
+    with ThreadPoolExecutor(jobs) as ex: list(ex.map(cc, srcs))
+    open(os.path.join(out, '.done'), 'w').write('ok')
+    for d in glob.glob(os.path.join(build, 'fuzzh-*')):
+        if d != out: shutil.rmtree(d, ignore_errors=True)
+    log('built fuzz harness objects in %.1fs' % (time.time() - t0))
+    return out
+def build_fuzz_target(env):
+    import verif
+    hdir = build_fuzz_harness(env['root'], os.path.join(env['root'], 'build'), env['jobs'], env['log'])
+    cdir = verif.cut_dir(); os.makedirs(cdir, exist_ok=True)
+    exe = os.path.join(cdir, 'fuzz_target_' + os.path.basename(hdir))
+    if os.path.exists(exe): return exe
+    inc = ['-I' + os.path.join(env['repo'], 'fixed_lib', 'include'), '-I' + os.path.join(env['root'], 'cut')]
+    objs = []
+    for src, extra in ((os.path.join(env['root'], 'cut', 'cut_main.cc'), ['-DCUT_CONFIG="fuzz-clang++-O1-c++17"']), (os.path.join(env['repo'], 'fixed_lib', 'src', 'fixed_math.cc'), [])):
+        obj = os.path.join(cdir, 'fz_' + os.path.basename(src)[:-3] + '.o'); objs.append(obj)
+        r = subprocess.run(['clang++', '-std=c++17', '-w', '-D%s=1' % verif.GUARD] + FUZZ_FLAGS + [verif.SAN, '-D_GLIBCXX_ASSERTIONS'] + inc + extra + ['-c', src, '-o', obj], stdout=subprocess.PIPE, stderr=subprocess.STDOUT, text=True)
+        if r.returncode: raise SystemExit('fuzz CUT build failed: %s\n%s' % (src, r.stdout[-3000:]))
+    ub = os.path.join(cdir, 'fz_ub_handlers.o')
+    r = subprocess.run(['clang', '-O1', '-c', os.path.join(env['root'], 'fuzz', 'ub_report.c'), '-o', ub], stdout=subprocess.PIPE, stderr=subprocess.STDOUT, text=True)
+    if r.returncode: raise SystemExit('ub_handlers build failed\n' + r.stdout)
+    r = subprocess.run(['clang++', '-fsanitize=fuzzer,address,undefined', '-o', exe + '.tmp'] + glob.glob(os.path.join(hdir, '*.o')) + objs + [ub], stdout=subprocess.PIPE, stderr=subprocess.STDOUT, text=True)
+    if r.returncode: raise SystemExit('fuzz link failed\n' + r.stdout[-3000:])
+    os.replace(exe + '.tmp', exe)
+    return exe
+def make_fuzz_engine(clauses, quick_runs, thorough_runs, quick_procs=8, thorough_procs=16):
+    def engine(env):
+        import verif
+        prop, tier, seed = env['prop'], env['tier'], env['seed']
+        res = dict(violations=[], errors=[], known_hits={})
+        t0 = time.time()
+        exe = build_fuzz_target(env)
+        nproc = min(env['jobs'], quick_procs if tier == 'quick' else thorough_procs); runs = quick_runs if tier == 'quick' else thorough_runs
+        fdir = os.path.join(env['work'], 'fuzz'); os.makedirs(fdir, exist_ok=True)
+        seeds = os.path.join(env['root'], 'corpus')
+        procs = []
+        for i in range(nproc):
+            d = os.path.join(fdir, 'p%d' % i); os.makedirs(os.path.join(d, 'corpus'), exist_ok=True); os.makedirs(os.path.join(d, 'art'), exist_ok=True)
+            if i % 2 == 0 and os.path.isdir(seeds):          # half the processes start from the committed seed corpus, half from an empty one
+                for f in glob.glob(os.path.join(seeds, '*')): shutil.copy(f, os.path.join(d, 'corpus'))
+            e = dict(os.environ, FUZZ_CLAUSES=','.join(clauses), FUZZ_KF=env['kf_txt'], FUZZ_STATS=os.path.join(d, 'stats'), ASAN_OPTIONS='detect_leaks=0:abort_on_error=1:symbolize=0:allocator_may_return_null=1', UBSAN_OPTIONS='print_stacktrace=0:symbolize=0:report_error_type=1')
+            argv = [exe, '-seed=%d' % (1 + (seed * 7919 + i * 104729) % 2000000000), '-runs=%d' % runs, '-max_len=1600', '-len_control=0', '-use_value_profile=1', '-print_final_stats=1', '-artifact_prefix=' + os.path.join(d, 'art') + '/', os.path.join(d, 'corpus')]
+            procs.append((d, subprocess.Popen(argv, stdout=open(os.path.join(d, 'log'), 'w'), stderr=subprocess.STDOUT, env=e)))
+        total_exec = 0; cov = []; arts = []
+        for d, p in procs:
+            try: p.wait(timeout=7200)
+            except subprocess.TimeoutExpired: p.kill()
+            logtxt = open(os.path.join(d, 'log'), errors='replace').read()
+            m = re.search(r'stat::number_of_executed_units:\s*(\d+)', logtxt)
+            if m: total_exec += int(m.group(1))
+            m2 = re.findall(r'cov: (\d+) ft: (\d+) corp: (\d+)', logtxt)
+            if m2: cov.append(tuple(int(x) for x in m2[-1]))
+            for a in glob.glob(os.path.join(d, 'art', 'crash-*')): arts.append((a, logtxt))
+        # artifacts -> ordinary cases -> 3x replay on the property's configurations
+        sos = [env['paths'][k] for k in sorted(env['paths'])]
+        seen = set(); notrepro = 0
+        for a, logtxt in arts:
+            r = subprocess.run([env['exe'], 'decode-fuzz', ','.join(clauses), a, sos[0]], stdout=subprocess.PIPE, text=True)
+            try: case = json.loads(r.stdout.strip() or '{}')
+            except Exception: case = {}
+            if not case: continue
+            key = (case['clause'], tuple(case['args']))
+            if key in seen: continue
+            seen.add(key)
+            fam_s = [s for s in sos if '/cut_S-' in s]; fam_r = [s for s in sos if '/cut_S-' not in s]
+            use = fam_s if (case['clause'].startswith('C07.entry') and fam_s) else (fam_r or sos)
+            ok3 = True; outp = ''
+            for _ in range(3):
+                rc_, outp = verif.do_replay(env['exe'], case['clause'], case['args'], use, env['kf_txt'])
+                if rc_ != 1: ok3 = False
+            if not ok3: notrepro += 1; continue
+            if len(res['violations']) < 2:
+                m = re.search(r'FAIL on (\S+): (.*)', outp)
+                res['violations'].append(dict(property=prop, clause=case['clause'], args=case['args'], cfg=m.group(1) if m else '?', what=(m.group(2) if m else 'fuzz artifact reproduces') + ' [found by libFuzzer]', configs=[os.path.basename(s)[4:-3] for s in use], replay_output=outp, tier=tier, seed=seed))
+        ev_cases = 0; ev_nt = 0
+        for d, p in procs:
+            try: a, b, c_ = open(os.path.join(d, 'stats')).read().split(); ev_cases += int(a); ev_nt += int(b)
+            except Exception: pass
+        res['evidence'] = dict(id='%s.fuzz' % prop, engine='libFuzzer (coverage + value profile), oracles inside the target', evaluations=total_exec, executions=total_exec,
+            distinct_nontrivial=max(c_[2] for c_ in cov) if cov else 0, exhaustive=False,
+            rule='libFuzzer drives the word-stream decoders of clauses %s against the library compiled with clang -O1, ASan, the UBSan checks (stock runtime observed through __ubsan_on_report) and coverage instrumentation; %d processes x %d runs, half seeded from /verif/corpus and half from an empty corpus; only crash artifacts count, each is decoded back into (clause, arguments) and must reproduce 3x through the ordinary replay path; distinct non-trivial cases are counted conservatively as the size of the largest final corpus (inputs that each reached new coverage or value-profile features)' % (', '.join(clauses), nproc, runs),
+            processes=nproc, runs_per_process=runs, final_cov_ft_corpus=cov, artifacts=len(arts), artifacts_not_reproduced=notrepro, cases_judged_by_oracle=ev_cases, nontrivial_cases=ev_nt, wall_s=round(time.time() - t0, 1),
+            samples=[dict(note='corpus units are word streams; decoded cases of this engine look like those of clause ' + clauses[0])])
+        return res
+    return engine
+CHECKS['C07']['extra'] = [make_fuzz_engine(['C07.entry'], 60000, 6000000)]
+CHECKS['C03']['extra'] = [make_fuzz_engine(['C03.divff', 'C03.divint'], 100000, 4000000)]
+
 def setup_extra(env):
-    pass
+    build_fuzz_harness(env['root'], env['build'], env['jobs'], env['log'])
 
 def replay_extra(v, env):
     if v.get('kind') == 'ce':
